@@ -11,6 +11,7 @@ import "sort"
 // structural equality of the trees).  Where the two differ on a pair that an operation compares, the
 // expected result depends on which notion is meant - that is the subject of property C07, not of C08/C09 -
 // and the history is flagged Ambiguous (excluded from the reference comparison and from the model tie).
+// With Ref.ByEquals (property C09: "a map keyed by value equality") the reference takes the side of Equals instead.
 
 type Ref struct {
 	Ambiguous bool
